@@ -10,7 +10,11 @@
 use crate::cmd::LocalSwarmCmd;
 use crate::driver::MAX_PACKET_SIZE;
 use crate::send_local_swarm_cmd;
-use crate::target_arch::{spawn, Instant};
+#[cfg(not(maidsafe_safe_network_verif))]
+use crate::target_arch::spawn;
+use crate::target_arch::Instant;
+#[cfg(maidsafe_safe_network_verif)]
+use crate::verif::spawn;
 use crate::{event::NetworkEvent, log_markers::Marker};
 use aes_gcm_siv::{
     aead::{Aead, KeyInit},
